@@ -909,3 +909,57 @@ Proof.
     + eexists. split; [left; reflexivity|]. apply in_map_iff. exists b. split; [exact Hbn|].
       apply filter_In. split; [apply Hb; exact Hbin|]. apply negb_true_iff; exact Hf.
 Qed.
+
+(* =============================================================================================
+   5. The branch selector of the package-listing shortcut
+   ============================================================================================= *)
+
+(* a text made of a zone without c1 followed by a zone without c2 never contains "c1 c2" *)
+Lemma no_infix_two_zones (c1 c2 : N) X : (forall c, In c X -> c <> c2) ->
+  forall Lz a b, (forall c, In c Lz -> c <> c1) -> Lz ++ X <> a ++ c1 :: c2 :: b.
+Proof.
+  intros HX. induction Lz as [|l Lz IH]; intros a b HL E.
+  - simpl in E. apply (HX c2); [|reflexivity]. rewrite E. apply in_or_app. right. right. left. reflexivity.
+  - destruct a as [|x a]; simpl in E.
+    + injection E as E1 _. apply (HL l); [left; reflexivity|exact E1].
+    + injection E as _ E. apply (IH a b); [|exact E]. intros c Hc. apply HL. right; exact Hc.
+Qed.
+
+Lemma lstrip_app_nonspace indent s c : forallb is_space indent = true -> is_space c = false ->
+  lstrip (indent ++ c :: s) = c :: s.
+Proof.
+  intros Hi Hc. induction indent as [|x indent IH]; simpl.
+  - rewrite Hc. reflexivity.
+  - simpl in Hi. apply andb_true_iff in Hi as [H1 H2]. rewrite H1. apply IH; exact H2.
+Qed.
+
+(* Every half-typed `from X` line - any indentation, X any (possibly relative, possibly empty or
+   unfinished) dotted identifier path, whatever letters it starts with - takes the shortcut. *)
+Theorem from_branch_taken indent X :
+  forallb is_space indent = true -> forallb is_path_char X = true ->
+  from_branch (indent ++ kw_from ++ X) = true.
+Proof.
+  intros Hi HX. unfold from_branch. apply andb_true_iff. split.
+  - unfold kw_from. simpl app. rewrite lstrip_app_nonspace; [|exact Hi|reflexivity].
+    apply prefixb_spec. eexists. reflexivity.
+  - apply negb_true_iff. destruct (infixb kw_import (indent ++ kw_from ++ X)) eqn:E; [|reflexivity].
+    exfalso. apply infixb_spec in E as (a & b & E).
+    (* the 't' of " import " would have to lie in indent ++ "from ", its final blank in X *)
+    assert (E' : (indent ++ kw_from) ++ X =
+                 (a ++ [32; 105; 109; 112; 111; 114]%N) ++ 116%N :: 32%N :: b).
+    { rewrite <- !app_assoc. exact E. }
+    revert E'. apply no_infix_two_zones.
+    + intros c Hc. rewrite forallb_forall in HX. specialize (HX c Hc).
+      intros ->. vm_compute in HX. discriminate.
+    + intros c Hc. apply in_app_or in Hc as [Hc|Hc].
+      * rewrite forallb_forall in Hi. specialize (Hi c Hc). intros ->. vm_compute in Hi. discriminate.
+      * unfold kw_from in Hc. simpl in Hc. intros ->.
+        repeat (destruct Hc as [Hc|Hc]; [discriminate|]). contradiction.
+Qed.
+
+(* once ` import ` has been typed the shortcut is not taken any more *)
+Lemma from_branch_after_import a b : from_branch (a ++ kw_import ++ b) = false.
+Proof.
+  unfold from_branch. apply andb_false_iff. right. apply negb_false_iff.
+  apply infixb_spec. exists a, b. reflexivity.
+Qed.
